@@ -11,8 +11,14 @@ P, S, H, G, V = "FFSM2_ENABLE_PLANS", "FFSM2_ENABLE_SERIALIZATION", "FFSM2_ENABL
     "FFSM2_ENABLE_LOG_INTERFACE", "FFSM2_ENABLE_VERBOSE_DEBUG_LOG"
 
 
+_cfg_counter = [0]
+
+
 def cfg(name, N=3, head=1, manual=0, L=4, cap=0, pay=0, ctx=1, inj=0, bare=0, feats=(), scale=1.0):
-    d = ["-DCFG_N=%d" % N, "-DCFG_HEAD=%d" % head, "-DCFG_MANUAL=%d" % manual, "-DCFG_L=%d" % L, "-DCFG_CAP=%d" % cap,
+    # the order in which the configuration aliases are applied rotates over the configurations
+    order = _cfg_counter[0] % 4
+    _cfg_counter[0] += 1
+    d = ["-DCFG_ORDER=%d" % order, "-DCFG_N=%d" % N, "-DCFG_HEAD=%d" % head, "-DCFG_MANUAL=%d" % manual, "-DCFG_L=%d" % L, "-DCFG_CAP=%d" % cap,
          "-DCFG_PAYLOAD=%d" % pay, "-DCFG_CTX=%d" % ctx, "-DCFG_INJ=%d" % inj, "-DCFG_BARE=%d" % bare] + ["-D" + f for f in feats]
     return {"name": name, "defs": d, "feats": set(feats), "N": N, "head": head, "manual": manual, "L": L, "cap": cap, "pay": pay,
             "ctx": ctx, "inj": inj, "bare": bare, "scale": scale}
@@ -36,6 +42,9 @@ CONFIGS = [
     cfg("peer4nolog", N=4, head=0, manual=0, L=2, cap=4, pay=2, ctx=2, feats=(P, S, H)),
     cfg("man2inj2", N=2, head=1, manual=1, L=1, cap=2, pay=5, ctx=0, inj=2, feats=(P, S, H, G)),
     cfg("n6log", N=6, head=0, manual=1, L=5, cap=1, pay=4, ctx=1, feats=(G,)),
+    # the smallest machine core there can be: one-byte value context, no payload, no optional feature
+    cfg("tiny", N=2, head=1, manual=0, L=2, pay=0, ctx=4, feats=()),
+    cfg("tinyser", N=3, head=0, manual=1, L=1, pay=0, ctx=4, feats=(S,)),
     # state counts beyond one storage unit of the per-state bit sets (9, 17, 32 states)
     cfg("n9plans", N=9, head=1, manual=0, L=3, cap=0, pay=3, ctx=1, feats=(P, S, H, G), scale=0.5),
     cfg("n17peer", N=17, head=0, manual=1, L=2, cap=20, pay=0, ctx=2, inj=1, feats=(P, S, H), scale=0.4),
